@@ -33,6 +33,7 @@ def run(rep: core.Report):
     _r13f(rep, tus)
     tolerance_degree(rep, "R13f.tol")
     _r13g(rep)
+    _r13h(rep)
     from rules import c13_abi, c13_bounds, c13_stride
 
     c13_abi.run(rep, an, tus)
@@ -410,6 +411,87 @@ def _r13f(rep, tus):
 
 
 
+# which optional pointer the kernel behind a glue function needs under which flags: confirmed by reading the kernels
+# (dym_dynamical_matrices_with_dd_openmp_over_qpoints: get_dynmat_want and add_dynmat_dd_at_q both test q_direction;
+# dd_q0 != NULL selects the Gonze-Lee term; dym_get_recip_dipole_dipole takes the direction at G + q = 0) and the
+# Python call sites (is_nac_q_zero = "no direction given")
+_NULLABLE = {
+    "py_get_dynamical_matrices_with_dd_openmp_over_qpoints": {
+        "py_q_direction": ("is_nac and not is_nac_q_zero", lambda f: f["is_nac"] and not f["is_nac_q_zero"]),
+        "py_dd_q0": ("is_nac and not use_Wang_NAC", lambda f: f["is_nac"] and not f["use_Wang_NAC"]),
+        "py_positions": ("is_nac and not use_Wang_NAC", lambda f: f["is_nac"] and not f["use_Wang_NAC"]),
+        "py_G_list": ("is_nac and not use_Wang_NAC", lambda f: f["is_nac"] and not f["use_Wang_NAC"]),
+    },
+    "py_get_recip_dipole_dipole": {
+        "py_q_direction": ("not is_nac_q_zero", lambda f: not f["is_nac_q_zero"]),
+    },
+}
+
+
+def _r13h(rep):
+    """Optional arrays in the glue: NULL or the caller's data, per combination of the flags (all paths)."""
+    import itertools
+
+    from engine import cpaths
+
+    rep.rule("R13h", "optional arrays of the glue functions: over all paths of the function (conditions split into atoms), the pointer handed to the kernel is the caller's array exactly under the flag combinations in which the kernel reads it, and NULL otherwise (a direction given from Python reaches both NAC kernels; the Gonze-Lee arrays only that method)", 5)
+    rel = "c/_phonopy.cpp"
+    tu = cast.load(rel)
+    for fname, table in _NULLABLE.items():
+        fn = tu.functions.get(fname)
+        if fn is None:
+            raise AnalysisError(f"anchor vanished: {fname} in {rel}")
+        flags = sorted({w for text, _ in table.values() for w in text.replace("(", " ").replace(")", " ").split() if w not in ("and", "or", "not")})
+        pnames = {p_.get("name") for p_ in cast.params(fn)}
+        if not set(flags) <= pnames:
+            raise AnalysisError(f"R13h: {fname} lost flag parameter(s) {sorted(set(flags) - pnames)}")
+        allp = cpaths.paths(fn)
+        outcome = {}  # (py array, flag values) -> set of 'data' | 'NULL'
+        for pth in allp:
+            facts, vals = {}, {}
+            for ev in pth:
+                if ev[0] == "cond":
+                    nm = cast.ref_name(ev[1])
+                    if nm in flags:
+                        facts[nm] = ev[2]
+                    elif any(x.get("referencedDecl", {}).get("name") in flags for x in cast.walk(ev[1])):
+                        raise AnalysisError(f"R13h: {fname}: condition '{cast.text(ev[1])}' on a flag is not a plain truth test")
+                elif ev[0] == "stmt":
+                    a = cpaths.assignment(ev)
+                    if a:
+                        src_ = [x.get("referencedDecl", {}).get("name") for x in cast.walk(a[1]) if x.get("kind") == "DeclRefExpr"]
+                        if src_ and "data" not in cast.text(a[1]):
+                            continue  # an extent (py_x.shape(0)) or another scalar, not the pointer
+                        vals[a[0]] = next((x for x in src_ if x in table), None) if src_ else "NULL"
+            # which local carries which py array: from the paths on which it is data
+            for combo in itertools.product((True, False), repeat=len(flags)):
+                f_ = dict(zip(flags, combo))
+                if any(facts.get(k, v) != v for k, v in f_.items()):
+                    continue
+                for loc, v in vals.items():
+                    outcome.setdefault((loc, combo), set()).add(v)
+        carriers = {}
+        for (loc, combo), vs in outcome.items():
+            for v in vs:
+                if v in table:
+                    carriers.setdefault(v, set()).add(loc)
+        for arr, (text, want) in table.items():
+            locs = carriers.get(arr, set())
+            if len(locs) != 1:
+                rep.instance("R13h", rel, fname, f"{arr}: handed over when {text}", False, f"the caller's array {arr} is never handed to the kernel (on no path of the function): the kernel always receives NULL and the term that needs it is silently dropped", line=tu.line(fn))
+                continue
+            loc = next(iter(locs))
+            wrong = []
+            for combo in itertools.product((True, False), repeat=len(flags)):
+                f_ = dict(zip(flags, combo))
+                got = outcome.get((loc, combo), set())
+                exp = {arr} if want(f_) else {"NULL"}
+                if got != exp:
+                    wrong.append((f_, sorted(map(str, got))))
+            rep.instance("R13h", rel, fname, f"{loc} = {arr}.data() exactly when {text}, NULL otherwise ({len(allp)} paths, {2 ** len(flags)} flag combinations)", not wrong,
+                         f"for {', '.join(f'{k}={int(v)}' for k, v in wrong[0][0].items()) if wrong else ''} the kernel receives {wrong[0][1] if wrong else ''} for '{loc}' instead of {'the array ' + arr if wrong and want(wrong[0][0]) else 'NULL'} ({len(wrong)} of {2 ** len(flags)} combinations differ): the kernel tests this pointer to decide whether the direction / the Gonze-Lee term applies, so the term is dropped (or junk is read) without any error", line=tu.line(fn))
+
+
 def tolerance_degree(rep, rid):
     """The shortest-vector kernels call two images equidistant when their distances differ by less than symprec
     (shared by C13 R13f and C03 R03f)."""
@@ -551,6 +633,8 @@ def selftest():
     b = lambda name, file, old, new, rule, expect="", **kw: V.append(dict(name=name, kind="break", file=file, old=old, new=new, rule=rule, expect=expect, **kw))
     n = lambda name, file, old, new, **kw: V.append(dict(name=name, kind="neutral", file=file, old=old, new=new, **kw))
     # R13b
+    b("glue drops the direction for the Wang kernel", "c/_phonopy.cpp", "    if (is_nac_q_zero || (!is_nac)) {\n        q_direction = NULL;", "    if (is_nac_q_zero || (!is_nac) || use_Wang_NAC) {\n        q_direction = NULL;", "R13h", "q_direction")
+    n("glue: direction test with the arms exchanged", "c/_phonopy.cpp", "    if (is_nac_q_zero || (!is_nac)) {\n        q_direction = NULL;\n    } else {\n        q_direction = (double *)py_q_direction.data();\n    }", "    if (is_nac && !is_nac_q_zero) {\n        q_direction = (double *)py_q_direction.data();\n    } else {\n        q_direction = NULL;\n    }")
     b("omp: drop gp from private", "c/phonopy.c", "private(k, g_addr, gp, address_double)", "private(k, g_addr, address_double)", "R13b", "scalar 'gp'")
     b("omp: drop address_double (callee out-param) from private", "c/phonopy.c", "private(k, g_addr, gp, address_double)", "private(k, g_addr, gp)", "R13b", "'address_double'")
     b("omp: drop tetrahedra from private", "c/phonopy.c", "tetrahedra, address_double)", "address_double)", "R13b", "'tetrahedra'")
